@@ -78,6 +78,10 @@ def _cfg_variant(cfg, h):
     """Every third CSV history runs with flush_on_insert=False (reads go through the same buffered handle)."""
     if cfg["storage"] == "csv" and h % 3 == 0:
         return dict(cfg, flush=False)
+    if cfg["storage"] == "csv" and h % 7 == 4:
+        import csv as _csv
+
+        return dict(cfg, csv=[{"delimiter": ";"}, {"quotechar": "'", "quoting": _csv.QUOTE_ALL}, {"delimiter": "\t", "lineterminator": "\n"}][h % 3])
     return cfg
 
 
